@@ -44,6 +44,7 @@ const tunnelId = 10
 func (p *Processor) Process(ctx context.Context) error {
 	for {
 		pt, sz, pkt, err := p.tunnel.Read()
+		verifPoint("process.afterRead")
 		if err != nil {
 			log.Printf("Cannot read message from stream %p", err)
 			return err
@@ -132,6 +133,7 @@ func (p *Processor) Process(ctx context.Context) error {
 				}
 			}
 			log.Printf("Establishing connection to RDP server: %s", host)
+			verifEvent("dial", p.tunnel, "host", host)
 			p.tunnel.rwc, err = net.DialTimeout("tcp", host, time.Second*15)
 			if err != nil {
 				log.Printf("Error connecting to %s, %s", host, err)
